@@ -859,14 +859,17 @@ class Segment:
         site = "GenerateRandomAttribute.execute"
         tags = self.model_tags(op["m"]) + ["op.GenerateRandomAttribute", "rng." + op["mode"]]
         key = "O:GenerateRandomAttribute"
-        if op.get("obj") == "reuse" and key in self.objects:
+        dom = op.get("domain")
+        # "domain never set" is a statement about a fresh object: a reused one legitimately
+        # still holds the domain it was given before
+        if op.get("obj") == "reuse" and key in self.objects and dom is not None:
             obj = self.objects[key]
             tags.append("hist.op_object_reused")
             self.probe("op_object_reused")
         else:
             obj = mod.GenerateRandomAttribute()
-        self.objects[key] = obj
-        dom = op.get("domain")
+        if dom is not None:
+            self.objects[key] = obj
         obj.set_name(op["attr"])
         obj.set_only_leaf_features(bool(op.get("only_leaf")))
         if dom is not None:
